@@ -121,6 +121,8 @@ class Parser:
             TokenType.FLOAT: self.parse_float_literal,
             TokenType.FUNCTION: self.parse_function_extension,
             TokenType.INT: self.parse_integer_literal,
+            TokenType.LPAREN: self.parse_grouped_expression,
+            TokenType.NOT: self.parse_prefix_expression,
             TokenType.NULL: self.parse_null,
             TokenType.ROOT: self.parse_root_query,
             TokenType.CURRENT: self.parse_relative_query,
@@ -497,6 +499,7 @@ class Parser:
                     token=stream.current,
                 ) from err
 
+            grouped = stream.current.type_ == TokenType.LPAREN
             expr = func(stream)
 
             # The argument could be a comparison or logical expression
@@ -505,6 +508,9 @@ class Parser:
                 stream.next_token()
                 expr = self.parse_infix_expression(stream, expr)
                 peek_kind = stream.peek.type_
+
+            if grouped:
+                self._raise_for_grouped_argument(tok, len(function_arguments), expr)
 
             function_arguments.append(expr)
 
@@ -680,6 +686,34 @@ class Parser:
 
     def _is_low_surrogate(self, codepoint: int) -> bool:
         return codepoint >= 0xDC00 and codepoint <= 0xDFFF
+
+    def _raise_for_grouped_argument(
+        self, token: Token, index: int, expr: Expression
+    ) -> None:
+        """A parenthesized function argument is a logical expression.
+
+        Grouping leaves no trace in the syntax tree, so arguments that are
+        nothing but a parenthesized literal, query or function call are
+        checked here.
+        """
+        if isinstance(expr, FilterExpressionLiteral):
+            raise JSONPathSyntaxError(
+                "filter expression literals outside of "
+                "function expressions must be compared",
+                token=expr.token,
+            )
+
+        if isinstance(expr, (FilterQuery, FunctionExtension)):
+            func = self.env.function_extensions.get(token.value)
+            if (
+                isinstance(func, FilterFunction)
+                and index < len(func.arg_types)
+                and func.arg_types[index] != ExpressionType.LOGICAL
+            ):
+                raise JSONPathTypeError(
+                    f"{token.value}() argument {index} must not be parenthesized",
+                    token=token,
+                )
 
     def _raise_for_uncompared_value_function(
         self, expr: Expression, token: Token
